@@ -133,6 +133,9 @@ func docsOf(c *chk.Ctx, set *plug.Set, b *abs.Built, s *abs.Schema, allFormats b
 		lines = append(lines, jsonLine(ev))
 	}
 	sort.Strings(names)
+	if names == nil {
+		names = []string{} // (no document at all: an empty list, not null)
+	}
 	lines = append(lines, jsonLine(map[string]any{"event": "Files", "docs": names}))
 	return docs, lines, ""
 }
